@@ -288,7 +288,13 @@ def comment_rewrite(rnd, text):
             line = line + "   // trailing ' comment"
         elif k < 0.5 and '"' not in line:
             line = "   " + line.replace(" ", "   ") + "\t"
-        elif k < 0.55:
+        elif k < 0.6 and '"' not in line and "/*" not in line and "#" not in line and "//" not in line and "${" not in line:
+            # a block comment is white space: it may stand where a blank stands, with nothing around it
+            parts = line.strip().split(" ")
+            if len(parts) >= 2:
+                j = rnd.randrange(1, len(parts))
+                line = line[: len(line) - len(line.lstrip())] + " ".join(parts[:j]) + "/* c */" + " ".join(parts[j:])
+        elif k < 0.65:
             out.append("")
         out.append(line)
     return "\n".join(out)
